@@ -99,6 +99,27 @@ def judge_huge(res, rng, tier):
         elif sum(1 for e in tr if e[0] == 'b') != ntasks or sum(1 for e in tr if e[0] in 'fc') != ntasks:
             res.fail('pool-trace-count', short, out[-300:], None, f'task starts / ends in the trace differ from the {ntasks} tasks')
 
+def judge_drop(res, rng, tier):
+    """the pool HANDLE is dropped while tasks are still queued behind busy workers (step `d`, always last): what was handed to the pool has
+    to run all the same - "no task is lost".  One harness process per scenario (the threads of a dropped pool stay behind); no trace, no
+    model (the model has no such step): judged by the counts alone"""
+    lines = []
+    for n in ((1, 2, 3) if tier == 'quick' else (1, 2, 3, 4, 8)):
+        for hist in ('l' * n + 'i' * (3 * n), 'l' * (2 * n) + 'e' + 'i' * n, 'l' * n + 'p' + 'i' * (2 * n) + 'l', 'i' * (4 * n), ''):
+            lines.append(P.scenario(n, hist + 'd', rng.below(1 << 32), rng.chance(1, 2)))
+    outs = P.run_pool(lines, parallel=8, batch=1)
+    for ln, out in zip(lines, outs):
+        res.evaluations += 1
+        res.count('class:pool handle dropped with a backlog (oracle only)')
+        res.distinct.add(hash(ln))
+        if not out.startswith('N='):
+            res.fail('pool-harness:' + (out.split() or ['?'])[0], ln, out[:200], None, 'the pool scenario did not produce a result line'); continue
+        f = P.fields(out)
+        counts = [] if f['counts'] == '-' else [int(x) for x in f['counts'].split(',')]
+        bad = [(i, c) for i, c in enumerate(counts) if c != 1][:8]
+        if bad or f['status'] != 'ok':
+            res.fail('pool-task-lost-at-drop', ln, out[-300:], None, f'the pool handle was dropped after the last submit; tasks not executed exactly once: {bad}')
+
 def run(res, tier, seed):
     rng = C.Rng(seed)
     lines, nprobe = gen(rng, tier)
@@ -114,6 +135,7 @@ def run(res, tier, seed):
         th.join()
         impl += box[0] if box else ['skipped'] * len(slow)
         judge_huge(res, rng2, tier)
+        judge_drop(res, rng.fork('drop'), tier)
     else:
         impl += ['skipped'] * (len(lines) - nprobe + len(slow))
     lines = lines + slow
